@@ -75,6 +75,25 @@ for missing_pos in sorted(self._missing_nodes):
     self._rebuild_node(missing_pos)
 '''
 
+ADD_CLIMB = '''
+while pos != 0:
+    above = self.parent(pos)
+    if above.node is not None or above.pos in self._missing_nodes:
+        break
+    pos = above.pos
+'''
+
+ABSENT_ANCESTORS = '''
+missing = set()
+for pos in list(nodes) + list(leaves):
+    while pos > 0:
+        pos = (pos - 1) // d
+        if pos in nodes or pos in leaves or pos in missing:
+            break
+        missing.add(pos)
+return missing
+'''
+
 UNLOAD_OLD = '''
 if self.storage:
     self._data = None
@@ -83,6 +102,21 @@ if self.storage:
 UNLOAD_KEEP = '''
 if self.storage and not getattr(self, "_dirty", False):
     self._data = None
+'''
+
+REBUILD_FIXED_LATE = '''
+node = self._nodes.get(pos, None)
+if node is not None:
+    return
+node = Node(self.factory, name=f"internal.{pos}")
+for c in self.children(pos):
+    cnode = c.node
+    if cnode is None and c.pos in self._missing_nodes:
+        self._rebuild_node(c.pos)
+        cnode = self._nodes[c.pos]
+    if cnode is not None:
+        cnode.update(node)
+self._nodes[pos] = node
 '''
 
 CLAMP = "if min_n_below == 0:\n    min_n_below = 1\n"
@@ -113,14 +147,39 @@ def x_sbt(report):
     rb = _body_dump(_func(tree, "SBT", "_rebuild_node"))
     if rb == _stmts(REBUILD_SHIPPED):
         fixed = False
-    elif rb == _stmts(REBUILD_FIXED):
+    elif rb == _stmts(REBUILD_FIXED) or rb == _stmts(REBUILD_FIXED_LATE):
+        # (REBUILD_FIXED_LATE registers the node after the loop instead of before it: the same function whenever no
+        #  child fails to load, which is all the model covers)
         fixed = True
     else:
         raise T.Unrecognised("SBT._rebuild_node", "body is neither the shipped nor the repaired shape")
     out["_rebuild_node"] = "repaired" if fixed else "shipped"
 
     # --- add_node: does it first rebuild the nodes recorded in _missing_nodes?
-    an = _body_dump(_func(tree, "SBT", "add_node"))
+    an_all = _body_dump(_func(tree, "SBT", "add_node"))
+    climb = _stmts(ADD_CLIMB)[0]
+    an = [x for x in an_all if x not in (_stmts("self.manifest = None")[0], climb)]
+    out["add_node_climbs_to_existing_parent"] = climb in an_all
+    # which positions does a loader record as missing: every free one below the largest, or only absent ancestors?
+    full = "tree._missing_nodes = {i for i in range(max_node) if i not in sbt_nodes and i not in sbt_leaves}"
+    anc = 'tree._missing_nodes = _absent_ancestors(info["d"], sbt_nodes, sbt_leaves)'
+    kinds = set()
+    for ld in ("_load_v3", "_load_v4", "_load_v5", "_load_v6"):
+        b = _body_dump(_func(tree, "SBT", ld))
+        if _stmts(full)[0] in b:
+            kinds.add("all-free")
+        elif _stmts(anc)[0] in b:
+            kinds.add("absent-ancestors")
+        else:
+            raise T.Unrecognised("SBT." + ld, "how _missing_nodes is computed is not one of the modelled shapes")
+    if len(kinds) != 1:
+        raise T.Unrecognised("SBT._load_v3.._v6", "the loaders disagree on how _missing_nodes is computed")
+    anc_only = kinds == {"absent-ancestors"}
+    if anc_only:
+        helper = [n for n in tree.body if isinstance(n, ast.FunctionDef) and n.name == "_absent_ancestors"]
+        if not helper or [ast.dump(x) for x in helper[0].body[1:]] != _stmts(ABSENT_ANCESTORS):
+            raise T.Unrecognised("_absent_ancestors", "helper body not recognised")
+    out["missing_nodes_are_absent_ancestors"] = anc_only
     first = _stmts("pos = self.new_node_pos(node)")[0]
     pre_loop = _stmts(ADD_PRE)[0]
     if an and an[0] == first:
@@ -131,6 +190,9 @@ def x_sbt(report):
         raise T.Unrecognised("SBT.add_node", "does not start with `pos = self.new_node_pos(node)` "
                              "nor with the rebuild of `sorted(self._missing_nodes)`")
     out["add_node_rebuilds_missing"] = pre
+    # does an insertion drop the (now stale) manifest of a loaded tree?
+    drops = _stmts("self.manifest = None")[0] in an_all
+    out["insert_drops_manifest"] = drops
 
     # --- Node.unload and the dirty flag set by the three update methods
     un = _body_dump(_func(tree, "Node", "unload"))
@@ -185,6 +247,13 @@ def x_sbt(report):
             _stmts("total_size = subj_size")[0] not in fnd:
         raise T.Unrecognised("SBT.find", "node_search: subj_size / total_size of an internal node not recognised")
     out["coarse_query_subj_size_one"] = coarse
+
+    # --- combine: is the node cache (keyed by the OLD positions) forgotten?
+    cb = ast.dump(_func(tree, "SBT", "combine"))
+    cache_reset = "_nodescache" in cb
+    if cache_reset and _stmts("self._nodescache = _NodesCache(maxsize=self._nodescache.maxsize)")[0] not in cb:
+        raise T.Unrecognised("SBT.combine", "touches the node cache in a way that is not modelled")
+    out["combine_resets_cache"] = cache_reset
 
     # --- the clamp
     clamp = _stmts(CLAMP)[0]
@@ -264,6 +333,14 @@ def x_sbt(report):
 def sbtRebuildFixed : Bool := {"true" if fixed else "false"}
 /-- `SBT.add_node` first rebuilds every node recorded in `_missing_nodes` -/
 def sbtAddRebuildsMissing : Bool := {"true" if pre else "false"}
+/-- `SBT.add_node` drops the manifest of a loaded tree (which does not list the new signature) -/
+def sbtInsertDropsManifest : Bool := {"true" if drops else "false"}
+/-- `SBT.add_node` climbs from the proposed position to one whose parent exists (trees made by `combine`) -/
+def sbtAddNodeClimbs : Bool := {"true" if out["add_node_climbs_to_existing_parent"] else "false"}
+/-- the loaders record as missing only absent ANCESTORS of what was loaded (not every free position) -/
+def sbtMissingOnlyAncestors : Bool := {"true" if anc_only else "false"}
+/-- `SBT.combine` forgets the node cache (its keys are positions of the tree before the combination) -/
+def sbtCombineResetsCache : Bool := {"true" if cache_reset else "false"}
 /-- `Node.unload` keeps a filter updated since it was loaded (`_dirty`, set by the three `update` methods) -/
 def sbtUnloadKeepsDirty : Bool := {"true" if keep else "false"}
 /-- `_load_v1` / `_load_v2` end with `_fill_min_n_below()` (as `_load_v3` does) -/
